@@ -27,7 +27,8 @@ RULE = (
     "multiple (cadence cases); distinct by (kind, interval, seed)"
 )
 REQUIRED = {
-    "stat_records_checked": 300, "counter_checks": 100, "list_member_checks": 20,
+    "stat_records_checked": 300, "counter_checks": 100, "list_member_checks": 16,
+    "lists_with_member_history": 8,
     "orbax_records": 100, "orbax_saves": 10, "orbax_restores": 10,
     "standard_saves": 5, "standard_restores": 5,
 }
@@ -42,6 +43,7 @@ def gen_cases(tier, seed):
     cases = []
     for i in range(60 * k):
         cases.append(dict(kind="stats", which=["memory", "standard", "list"][i % 3],
+                          history=bool((i // 3) % 2),
                           n_ops=int(rng.integers(20, 200)),
                           seed=int(rng.integers(1 << 30)), cost=0.2))
     for i in range(32 * k):
@@ -91,7 +93,7 @@ def run_stats(case):
         ep_off = [0] * len(members)
         st_off = [0] * len(members)
         pre = {}  # member index -> records made before the list was used
-        if len(members) > 1 and case["seed"] % 2:
+        if len(members) > 1 and case.get("history"):
             for j, m in enumerate(members):
                 for _ in range(int(rng.integers(0, 4)) if j else 0):
                     m.start_new_episode()
